@@ -241,7 +241,7 @@ def _defs_in(fn: ast.AST) -> Dict[str, List[ast.AST]]:
     return out
 
 
-@rule("R-STALE-LOOP", floor=2)
+@rule("R-STALE-LOOP", floor=1)
 def r_stale_loop(ctx: RuleCtx, col: Collector):
     """Iterative drivers (MMA sub-problem solver, CG, OC bisection): a `while` test reads quantities that are
     up to date with respect to the variables the loop nest changes.  If a name in the test is computed from variable v,
@@ -1257,8 +1257,46 @@ def r_norm_factor(ctx: RuleCtx, col: Collector):
     selfn = m.self_name(resp)
     loops = [n for n in ast.walk(resp.node) if isinstance(n, ast.For) and any(
         isinstance(x, ast.AugAssign) and isinstance(x.op, (ast.Mult, ast.Div)) for x in ast.walk(n))]
+    loops = [lp_ for lp_ in loops if any(isinstance(x, ast.AugAssign) and isinstance(x.op, (ast.Mult, ast.Div)) and isinstance(x.target, (ast.Name, ast.Subscript))
+                                         for x in ast.walk(lp_))]
     if not loops:
-        raise AnalysisError("EigenSolve._response: normalisation loop not found")
+        # vectorised form  Q *= factors : the factors are judged as an expression of the whole matrix
+        rets_ = [n for n in ast.walk(resp.node) if isinstance(n, ast.Return) and isinstance(n.value, ast.Tuple) and len(n.value.elts) == 2]
+        qn = norm(rets_[-1].value.elts[1]) if rets_ else None
+        whole = [x for x in ast.walk(resp.node) if isinstance(x, ast.AugAssign) and isinstance(x.op, (ast.Mult, ast.Div)) and norm(x.target) == qn]
+        if not whole:
+            raise AnalysisError("EigenSolve._response: normalisation loop not found")
+        sc = whole[-1]
+        expr = expand_names(resp.node, sc.value)
+        num, den = [], []
+
+        def split_v(e, inv=False):
+            if isinstance(e, ast.BinOp) and isinstance(e.op, ast.Mult):
+                split_v(e.left, inv)
+                split_v(e.right, inv)
+            elif isinstance(e, ast.BinOp) and isinstance(e.op, ast.Div):
+                split_v(e.left, inv)
+                split_v(e.right, not inv)
+            else:
+                (den if inv != isinstance(sc.op, ast.Div) else num).append(e)
+        split_v(expr)
+        construct = "EigenSolve: norm in the scale factor computed from the vector itself"
+        if not den:
+            col.bad(where_of(resp), resp.rel, line_of(sc), construct, f"'{norm(expr)[:80]}' contains no division by a norm")
+        elif all(qn in _names(d) for d in den):
+            col.ok(where_of(resp), resp.rel, line_of(sc), construct, f"divisor {[norm(d)[:60] for d in den]}")
+        else:
+            col.bad(where_of(resp), resp.rel, line_of(sc), construct,
+                    f"a divisor of '{norm(expr)[:80]}' is not computed from the eigenvectors '{qn}'")
+        construct = "EigenSolve: orientation factor is +1 or -1"
+        txt = " ".join(norm(n_) for n_ in num)
+        if "np.sign(" in txt or "numpy.sign(" in txt:
+            col.bad(where_of(resp), resp.rel, line_of(sc), construct,
+                    f"'{txt[:80]}' uses np.sign, which is 0 for a vector whose mean entry is exactly zero: that eigenvector is scaled to "
+                    f"the zero vector (q^T B q = 0)")
+        else:
+            col.ok(where_of(resp), resp.rel, line_of(sc), construct, txt[:80] or "no orientation factor")
+        return
     lp = loops[0]
     # what identifies the current eigenvector: the loop counter, or the vector itself (for i, q in enumerate(Q.T))
     idxs = [x.id for x in ast.walk(lp.target) if isinstance(x, ast.Name)]
